@@ -103,6 +103,16 @@ func (p *Prog) resolve(cs *CallSite) {
 		if sig != nil && sig.Recv() != nil {
 			if iface, ok := sig.Recv().Type().Underlying().(*types.Interface); ok {
 				cs.Dynamic = true
+				// the static type of the receiver expression may be a richer interface than the one that declares the
+				// method (resp.Body.Close(): io.ReadCloser, the method belongs to the embedded io.Closer): a target must
+				// implement all of it
+				if sel, isSel := unparen(cs.Call.Fun).(*ast.SelectorExpr); isSel {
+					if st := info.TypeOf(sel.X); st != nil {
+						if full, isI := st.Underlying().(*types.Interface); isI && full.NumMethods() > iface.NumMethods() {
+							iface = full
+						}
+					}
+				}
 				for _, t := range p.Implementations(iface, cs.Callee.Name()) {
 					add(t)
 				}
